@@ -28,7 +28,8 @@ class C11(PipelineCheck):
             'erasure, overwritten) are then fed to a seeded translator history of 14-30 '
             'translate(program_i, translator_j, package) operations over shared / fresh / '
             'other-language translator objects (P8), always containing the driver\'s own '
-            'pattern (original, keep-all copies, mutated, package switch, incorrect); after '
+            'pattern (original, keep-all copies, mutated, package switch, incorrect) and ending '
+            'with a sweep of every program through the shared translator of every language; after '
             'every operation the text must equal the first translation of that program by a '
             'fresh translator and the program snapshot must be unchanged; distinct non-trivial = '
             'distinct (tape digest, history) with >= 2 stage programs')
@@ -63,7 +64,13 @@ class C11(PipelineCheck):
             which = r.choice(['shared', 'shared', 'fresh', 'shared2'])
             ops.append((i, l, which, r.randrange(2)))
         r.shuffle(ops)
-        return ops
+        # closing sweep: every program once more through the shared translator of every
+        # language, so that each (program, language) pair is translated by a translator object
+        # with a history at least once per run (a translator-state leak that needs one
+        # particular construct then shows in every run whose programs contain it)
+        sweep = [(i, l, 'shared', r.randrange(2)) for l in langs for i in range(nstages)]
+        r.shuffle(sweep)
+        return ops + sweep
 
     def judge(self, run, obs, sim, plan):
         from src import utils
